@@ -716,7 +716,10 @@ def check_climnet(ctx, ES, k):
     T = int(r.integers(N + 6, 41))
     M = np.zeros((T, N))
     for i in range(N):
-        M[r.choice(T, size=int(r.integers(3, 9)), replace=False), i] = 1
+        # (at least one sample without an event: a matrix of ones only is
+        #  refused by the constructor as "not in correct format")
+        M[r.choice(T, size=int(r.integers(3, min(9, T))), replace=False),
+          i] = 1
     method = str(r.choice(["ES", "ECA"]))
     taumax = float(r.choice([1, 2, 3])) if method == "ECA" else \
         float(r.choice([INF, 1, 2]))
